@@ -34,8 +34,10 @@ LEVEL_TEXT = ("Proof (Coq, reals) about the executable Gallina model of helpers.
               "direction of insertion while the other directions are untouched; the curve operation as a whole (span search, multiplicity search "
               "with the code's tolerance, check_num) either rejects exactly when num > degree - multiplicity and returns the curve unchanged, or "
               "preserves all points; an inadmissible single-direction insertion leaves curve, surface and volume (each direction) unchanged. "
-              "Only tied by the correspondence check + exact oracle (not Coq theorems): for surfaces/volumes the link between the span / "
-              "multiplicity searches and the hypotheses on k and s (proved for curves), sequences of calls (composition of the per-call theorems), "
+              "Round 2 (Proofs/InsertOpSurf.v): the WHOLE operation on surfaces and volumes, any subset of directions, with the code's own span / "
+              "multiplicity searches: raises exactly when a requested direction has an excess count, sizes grow by the counts in the requested "
+              "directions only, other knot vectors untouched, every point unchanged (also when a later direction raises after an earlier one was applied). "
+              "Only tied by the correspondence check + exact oracle (not Coq theorems): sequences of calls (composition of the per-call theorems), "
               "check_num=False, floating-point rounding, and that the evaluators compute the Cox-de Boor sums (C01).")
 LEVEL_NOTE = ("Trusted: Coq 8.16.1 kernel incl. vm_compute; standard-library axioms of Reals (sig_forall_dec, functional_extensionality_dep) as "
               "printed by Print Assumptions; the hand-written model's fidelity is sampled by the correspondence check on every run (helpers, "
